@@ -743,10 +743,8 @@ def rule_window(facts):
         gs, tm = pat.guards(al)
         c = cfg(al)
         wrap = None
-        for (bb, t, z, nz) in gs:
-            s = pat.cmp_sides(t)
-            if s and s[0] == "Eq" and pat.has_field(t, "cursor") and pat.has_field(t, "dict_size"):
-                wrap = (bb, nz)
+        for (bb, full) in pat.wrap_guards(al):
+            wrap = (bb, full)
         r.sites += 1
         if not wrap:
             r.bad("append_literal|wrap-test", "no `cursor == dict_size` test after the append", pat.where(al))
